@@ -161,6 +161,68 @@ fn directed_dep_and_spend(w: &mut World, rng: &mut Rng, nonce: u64) -> Result<bo
     Ok(true)
 }
 
+/// Directed scenario (dep groups): a dep-group cell G lists an output of a transaction M that is pooled, not committed
+/// (G itself on the chain or pooled); U names G as a dep group.  U then depends on M exactly as if it named M's output
+/// as a plain cell dep.  Afterwards, sometimes, M is removed (U has to leave with it).
+pub fn directed_dep_group(w: &mut World, rng: &mut Rng, nonce: &mut u64, counts: &mut [u64; 4]) -> Result<(), String> {
+    let sp = w.spendable();
+    if sp.len() < 3 {
+        return Ok(());
+    }
+    // the member: an output of a transaction that is pooled already, or of a fresh one submitted below
+    let pooled = w.pooled();
+    let old_member: Option<usize> = if rng.chance(1, 2) { pick(rng, &pooled).map(|t| w.txs[t].outs[0]) } else { None };
+    let mut free: Vec<usize> = sp.iter().copied().filter(|o| Some(*o) != old_member).collect();
+    let mut take = |rng: &mut Rng| -> Option<usize> { if free.is_empty() { None } else { Some(free.remove(rng.below(free.len() as u64) as usize)) } };
+    let (m_out, fresh_m) = match old_member {
+        Some(o) => (o, None),
+        None => {
+            let Some(i) = take(rng) else { return Ok(()) };
+            let Some(m) = w.new_tx(&[i], &[], &[], 2, rng.range(900, 5_000), rng) else { return Ok(()) };
+            (w.txs[m].outs[0], Some(m))
+        }
+    };
+    let Some(gi) = take(rng) else { return Ok(()) };
+    let mut members = vec![m_out];
+    if rng.chance(1, 3) {
+        // a second member that is an ordinary live cell
+        if let Some(x) = take(rng) { members.push(x); }
+    }
+    let Some(g) = w.new_group_tx(&[gi], &members, rng.range(900, 5_000), rng) else { return Ok(()) };
+    counts[0] += 1;
+    let on_chain = rng.chance(1, 2);
+    if on_chain {
+        // G goes to the chain first: proposed, then committed w_close blocks later (hand-assembled blocks; M is not pooled yet
+        // when it is fresh, so the blocks cannot take it along)
+        *nonce += 1;
+        if w.attach(&[g], &[], *nonce).is_err() { return Ok(()); }
+        for _ in 1..w.scn.window.0 { *nonce += 1; w.attach(&[], &[], *nonce)?; }
+        *nonce += 1;
+        if w.attach(&[], &[g], *nonce).is_err() { return Ok(()); }
+        counts[1] += 1;
+    } else if w.submit(g).is_err() {
+        return Ok(());
+    }
+    if let Some(m) = fresh_m {
+        if w.submit(m).is_err() { return Ok(()); }
+    }
+    let Some(ui) = take(rng) else { return Ok(()) };
+    let g_out = w.txs[g].outs[0];
+    let Some(u) = w.new_tx_full(&[ui], &[], &[g_out], &[], &[], 1, rng.range(900, 5_000), rng) else { return Ok(()) };
+    if w.submit(u).is_ok() {
+        counts[2] += 1;
+        if rng.chance(1, 3) {
+            if let Some(mc) = w.outs[m_out].creator {
+                if w.pooled().contains(&mc) {
+                    w.remove(mc);
+                    counts[3] += 1;
+                }
+            }
+        }
+    }
+    Ok(())
+}
+
 pub fn reorg_history(args: &[String], probes: bool) -> Value {
     let seed = opt_u64(args, "--seed", 1);
     let steps = opt_u64(args, "--steps", 100);
@@ -175,6 +237,7 @@ pub fn reorg_history(args: &[String], probes: bool) -> Value {
     let mut err: Option<String> = None;
     let mut n_resubmit = 0u64;
     let mut n_dep_spend = 0u64;
+    let mut dep_groups = [0u64; 4];
     // twins created for transactions that went to the main chain: candidates to be committed on a side branch
     let mut twins: Vec<usize> = vec![];
     if pr == 5 || pr == 6 || pr == 7 {
@@ -258,6 +321,20 @@ pub fn reorg_history(args: &[String], probes: bool) -> Value {
                 if directed_dep_and_spend(&mut w, &mut rng, nonce * 17)? {
                     n_dep_spend += 1;
                     n_blocks += 1 + w.scn.window.0;
+                }
+                return Ok(());
+            }
+            if pr <= 4 && rng.chance(1, 12) {
+                // directed (dep groups): a dep-group user pooled next to the creator of a group member; then (mining nodes) the
+                // node's own templates propose and commit the family - the user has to come after the member's creator
+                let before = dep_groups[2];
+                directed_dep_group(&mut w, &mut rng, &mut nonce, &mut dep_groups)?;
+                if dep_groups[2] > before && w.scn.mine && rng.chance(2, 3) {
+                    for _ in 0..=w.scn.window.0 {
+                        w.probe_template("dep-group-family", true);
+                        w.mine()?;
+                        n_blocks += 1;
+                    }
                 }
                 return Ok(());
             }
@@ -386,7 +463,7 @@ pub fn reorg_history(args: &[String], probes: bool) -> Value {
     let mut doc = w.finish_json();
     doc["summary"] = json!({"seed": seed, "profile": pr, "mine": scn.mine, "steps": steps, "events": w.events.len(), "txs": w.txs.len(), "accepted": n_accept,
         "rejected": n_reject, "blocks": n_blocks, "reorgs": n_reorg, "detached_blocks": n_detached, "concurrent_submits": n_conc,
-        "side_branches_with_commits": n_commit_side, "directed_reorgs": n_directed, "resubmitted_proposed": n_resubmit, "dep_and_spend_committed": n_dep_spend, "templates": w.n_templates, "boundary_templates": w.n_boundary_templates, "error": err});
+        "side_branches_with_commits": n_commit_side, "directed_reorgs": n_directed, "resubmitted_proposed": n_resubmit, "dep_and_spend_committed": n_dep_spend, "dep_groups": dep_groups, "templates": w.n_templates, "boundary_templates": w.n_boundary_templates, "error": err});
     w.dispose();
     doc
 }
